@@ -49,6 +49,10 @@ def check_ngram(R, X, n, behaviour, Xnew):
                 lab = label if n > 1 or isinstance(label, tuple) else label
                 want = cnt.get(lab, cnt.get((lab,), 0)) if not isinstance(lab, tuple) else cnt.get(lab, 0)
                 if mat[i, j] != want:
+                    if behaviour == "subgrams" and n >= 2 and isinstance(label, tuple) and len(label) == 1 and mat[i, j] == 0:
+                        # the known defect: unigram columns of a subgrams model are never counted (all other cells are still checked)
+                        R.fail("ngram/subgrams-unigram-not-counted", "%s entry (doc %d, unigram %r) = 0 in a 'subgrams' model, the unigram occurs %d times" % (what, i, label, want), **dict(case, new=Xnew))
+                        continue
                     R.fail("ngram/%s-count" % what, "%s entry (doc %d, n-gram %r) = %r, the n-gram occurs %d times" % (what, i, label, mat[i, j], want), **dict(case, new=Xnew))
                     return
         if what == "fit_transform":
